@@ -40,8 +40,13 @@ type c12Scn struct {
 	ViaContext bool `json:"via_context,omitempty"`
 	// Warm: the Interpreter is reused: the same program first runs once with every flag off and
 	// another OpenFile function, in a world of its own; then the measured run
-	Warm  bool       `json:"warm,omitempty"`
-	Stdin core.Bytes `json:"stdin"`
+	Warm bool `json:"warm,omitempty"`
+	// WarmSame: the warm-up run gets the very same *Config value (its fields are changed between
+	// the two runs, as a caller that keeps one Config around would do); WarmNoReset: no ResetVars
+	// between the runs
+	WarmSame    bool       `json:"warm_same,omitempty"`
+	WarmNoReset bool       `json:"warm_no_reset,omitempty"`
+	Stdin       core.Bytes `json:"stdin"`
 	// Faults: virtual name -> fault of the OpenFile seam (custom open only)
 	Faults map[string]string `json:"faults,omitempty"`
 }
@@ -151,6 +156,9 @@ func (c12Engine) Gen(r *core.Rand, tier string, i int) any {
 	sc.ArgvRuntime = len(sc.Args) > 0 && r.Chance(1, 3)
 	sc.ViaContext = r.Chance(1, 4)
 	sc.Warm = r.Chance(1, 5)
+	if sc.Warm {
+		sc.WarmSame, sc.WarmNoReset = r.Chance(1, 3), r.Chance(1, 3)
+	}
 	sc.Stdin = core.Bytes("s1\ns2\ns3\n")
 	if sc.CustomOpen && r.Chance(1, 6) {
 		sc.Faults = map[string]string{core.Pick(r, []string{"out1", "in1", "out2"}): core.Pick(r, []string{"enoent", "eacces", "devfull", "readonly", "emfile", "emfile"})}
@@ -470,10 +478,20 @@ func (e c12Engine) Run(scAny any, keep bool) (out core.Outcome) {
 			if sc.CustomOpen {
 				warm.OpenFile = wfs.Open
 			}
-			wr := guarded(func() (int, error) { return it.Execute(&warm) })
+			var wr execResult
+			if sc.WarmSame {
+				measured := *cfg
+				*cfg = warm
+				wr = guarded(func() (int, error) { return it.Execute(cfg) })
+				*cfg = measured
+			} else {
+				wr = guarded(func() (int, error) { return it.Execute(&warm) })
+			}
 			wfs.Remove()
 			warmPanic = wr.Panic
-			it.ResetVars()
+			if !sc.WarmNoReset {
+				it.ResetVars()
+			}
 			// only the measured run is judged
 			st.marks, st.seen = nil, nil
 			st.dones, st.vals = map[int]float64{}, map[int]string{}
@@ -816,7 +834,13 @@ func (c12Engine) Shrink(scAny any) []any {
 		add(func(c *c12Scn) { c.ViaContext = false })
 	}
 	if sc.Warm {
-		add(func(c *c12Scn) { c.Warm = false })
+		add(func(c *c12Scn) { c.Warm, c.WarmSame, c.WarmNoReset = false, false, false })
+		if sc.WarmSame {
+			add(func(c *c12Scn) { c.WarmSame = false })
+		}
+		if sc.WarmNoReset {
+			add(func(c *c12Scn) { c.WarmNoReset = false })
+		}
 	}
 	if sc.ArgvRuntime {
 		add(func(c *c12Scn) { c.ArgvRuntime = false })
